@@ -373,6 +373,10 @@ class MessageManager(ClientLike):
         Args:
             module (Module): Module object to remove
         """
+        if self.modules.get(module.conn) is not module:
+            # already removed, e.g. dropped when a notice sent on its behalf could not be written to it
+            return
+
         # Drop all subscriptions for this module
         for msg_type in module.subs:
             self.subscriptions[msg_type].discard(module)
